@@ -56,9 +56,29 @@ let code_of_error (e : error) : string =
 let opt_error_of_code s = if s = "-" then None else Some (error_of_code s)
 let code_of_opt_error = function None -> "-" | Some e -> code_of_error e
 
+(* PFAIL lines are collected PER CLAUSE (8 each) and printed at the end ROUND-ROBIN over the clauses: the
+   report keeps only the first few violations, and a change that breaks many lines of one kind (e.g. every
+   SF script when fileConn.Read drops its byte count) must not hide the clauses checked later in the
+   stream (the FC/UD/DC glue lines) - each broken clause shows its own concrete input among the first *)
+let clause_order : string list ref = ref []
+let clause_lines : (string, string list) Hashtbl.t = Hashtbl.create 16
+
 let pfail line clause expected =
   incr n_mismatch;
-  if !n_mismatch <= 50 then Printf.printf "PFAIL %s || clause=%s expected=%s\n" line clause expected
+  let l = try Hashtbl.find clause_lines clause with Not_found -> (clause_order := !clause_order @ [ clause ]; []) in
+  if List.length l < 8 then
+    Hashtbl.replace clause_lines clause (l @ [ Printf.sprintf "PFAIL %s || clause=%s expected=%s" line clause expected ])
+
+let flush_pfail () =
+  (* the scanner clauses carry indices in their names (frame-0-of-1, frame-1-of-2, ...): the glue clauses
+     (three fixed names) go first in every round so that they are not crowded out *)
+  let glue, other = List.partition (fun c -> String.length c >= 5 && String.sub c 0 5 = "glue-") !clause_order in
+  clause_order := glue @ other;
+  for i = 0 to 7 do
+    List.iter
+      (fun c -> match List.nth_opt (Hashtbl.find clause_lines c) i with Some t -> print_endline t | None -> ())
+      !clause_order
+  done
 
 (* DISAGREE lines have their own print budget: thousands of them (e.g. every T line with a length
    9..255 when decodeFrame changes) must not use up the budget of the MISMATCH / PFAIL lines that carry
@@ -822,6 +842,7 @@ let () =
        if l <> "" then handle l
      done
    with End_of_file -> ());
+  flush_pfail ();
   Hashtbl.iter (fun k v -> Hashtbl.replace kinds k v) read_kinds;
   n_mismatch := !n_mismatch + !n_disagree;
   print_stats ()
